@@ -8,7 +8,9 @@ package verifnd
 
 import (
 	"fmt"
+	"io/fs"
 	"math"
+	"os"
 )
 
 // Tape holds the values returned by successive calls (native replay only).
@@ -126,5 +128,59 @@ func Symbolic() bool { return false }
 
 // IsSymbolic reports whether v is (or wraps) a symbolic value in the engine.
 func IsSymbolic(v any) bool { return false }
+
+// ---- a small file system for harnesses of the command-line runner ----
+// Under the engine the files live in an in-engine map that os.ReadFile / os.ReadDir consult;
+// natively they are real files under a fresh temporary directory.
+
+var vfsRoot string
+
+// VFSRoot returns the directory under which VFSWrite / VFSMkdir paths must lie.
+func VFSRoot() string {
+	if vfsRoot == "" {
+		d, err := os.MkdirTemp("", "verif-vfs-")
+		if err != nil {
+			panic(err)
+		}
+		vfsRoot = d
+	}
+	return vfsRoot
+}
+
+func VFSWrite(path, content string) {
+	if err := os.WriteFile(path, []byte(content), 0o644); err != nil {
+		panic(err)
+	}
+}
+
+func VFSMkdir(path string) {
+	if err := os.MkdirAll(path, 0o755); err != nil {
+		panic(err)
+	}
+}
+
+// VFSCleanup removes the temporary directory (native) and forgets it.
+func VFSCleanup() {
+	if vfsRoot != "" {
+		os.RemoveAll(vfsRoot)
+		vfsRoot = ""
+	}
+}
+
+// DirEnt is the os.DirEntry the engine's os.ReadDir hands out.
+type DirEnt struct {
+	N string
+	D bool
+}
+
+func (d DirEnt) Name() string { return d.N }
+func (d DirEnt) IsDir() bool  { return d.D }
+func (d DirEnt) Type() fs.FileMode {
+	if d.D {
+		return fs.ModeDir
+	}
+	return 0
+}
+func (d DirEnt) Info() (fs.FileInfo, error) { return nil, fs.ErrInvalid }
 
 func init() { _ = fmt.Sprint }
